@@ -143,6 +143,16 @@ else:
         # with `cargo test --test`; this does not depend on the free-form demo_cmd text
         smart = None
         rs_files = [f for f in os.listdir(demo_dir) if f.endswith(".rs")] if os.path.isdir(demo_dir) else []
+        # demos that patch a test into an existing module ship a run_demo.sh: run that script (with
+        # the agent's worktree path rewritten to the scratch worktree) instead of the smart mode
+        run_sh = f"{demo_dir}/run_demo.sh"
+        if os.path.exists(run_sh):
+            txt = open(run_sh).read().replace(agent_wt, repo)
+            lp = f"{demo_dir}/.run_demo_{scratch}.sh"  # same directory, so $(dirname $0) still finds the demo files
+            open(lp, "w").write(txt)
+            cmd = f"bash {lp} {repo}"
+            conf["demo"]["cmd_rerun"] = cmd
+            rs_files = []
         if not os.path.exists(f"{demo_dir}/Cargo.toml") and rs_files:
             # choose the crate named in the command if any, else the first touched crate
             crate_dir, pkg = crates[0], (pkgs[0] if pkgs else None)
